@@ -3,7 +3,6 @@ CONSTANTS
   MaxD = 7
   MaxSteps = 70
   NLabels = 3
-  UndefGoto = FALSE
-  NoretArm = FALSE
+  NPlain = 10
 INVARIANT Emit
 CHECK_DEADLOCK FALSE
